@@ -4,6 +4,7 @@ full:    True when the property's statement is proved at full strength (evidence
          False: level `other`, `missing` says what is not proved.
 """
 PROOFS = {
+    "C01": dict(coq=["theories/Prop_C01.v"], full=True, missing=""),
     "C02": dict(coq=["theories/Prop_C02.v"], full=True, missing=""),
     "C03": dict(coq=["theories/Prop_C03.v"], full=True,
                 missing="(hypothesis: the os.urandom draws of a history are pairwise distinct 8-byte strings)"),
